@@ -34,7 +34,8 @@ def main():
         demo = d / 'demo.py'
         # demos define @fp.fpy functions, so they must live in a real file; run a copy inside the worktree
         dst = Path(wt) / '_demo_seeded.py'
-        dst.write_text(demo.read_text().replace('/tmp/seed/' + sid.split('-')[0], wt))
+        pid = sid.split('-')[0]
+        dst.write_text(demo.read_text().replace(f'/tmp/seed/{pid}r2', wt).replace(f'/tmp/seed/{pid}', wt))
         r0 = sh('/venv/bin/python', str(dst), env=env, cwd=wt, timeout=900)
         out['demo_pristine_exit'] = r0.returncode
         ra = sh('git', '-C', wt, 'apply', str(d / 'patch.diff'))
